@@ -514,11 +514,32 @@ def task_manager_facts(scan):
     facts["registerRefusesWhenShutdown"] = g_down is not None and g_down < store
     facts["registerRaisesWhenActive"] = g_act is not None and g_act < store
     facts["registerChecksShutdownFirst"] = g_down is not None and g_act is not None and g_down < g_act
-    done_cb = next((n for n in _walk_inlined(reg) if isinstance(n, ast.FunctionDef) and n.name == "done_cb"), None)
-    facts["doneCallbackUntracksOnlyItself"] = done_cb is not None and any(
-        isinstance(n, ast.If) and isinstance(n.test, ast.Compare) and isinstance(n.test.ops[0], ast.Is)
-        and "_pending_tasks" in _src(n.test) and any("_pending_tasks.pop" in _src(b) for b in n.body)
-        for n in ast.walk(done_cb))
+    # the done-callback of a registered task: whatever register_task hands to add_done_callback — a nested function, a bound
+    # method of the class, or functools.partial of one
+    def _callback_fn(arg):
+        if isinstance(arg, ast.Call) and isinstance(arg.func, ast.Name) and arg.func.id == "partial" and arg.args:
+            arg = arg.args[0]
+        if isinstance(arg, ast.Name):
+            return next((n for n in _walk_inlined(reg) if isinstance(n, ast.FunctionDef) and n.name == arg.id), None)
+        if isinstance(arg, ast.Attribute) and isinstance(arg.value, ast.Name) and arg.value.id == "self":
+            return _method(tm, arg.attr)
+        return None
+
+    cbs = [_callback_fn(n.args[0]) for n in _walk_inlined(reg)
+           if isinstance(n, ast.Call) and isinstance(n.func, ast.Attribute) and n.func.attr == "add_done_callback" and n.args]
+    cbs = [c for c in cbs if c is not None and "_pending_tasks" in _src(c)]
+
+    def _untracks_only_itself(fn):
+        guarded = [b for n in ast.walk(fn) if isinstance(n, ast.If) and isinstance(n.test, ast.Compare)
+                   and isinstance(n.test.ops[0], ast.Is) and "_pending_tasks" in _src(n.test)
+                   for b in n.body for x in ast.walk(b)
+                   if isinstance(x, ast.Call) and isinstance(x.func, ast.Attribute) and x.func.attr == "pop"
+                   and _is_self_attr(x.func.value, "_pending_tasks")]
+        pops = [x for x in ast.walk(fn) if isinstance(x, ast.Call) and isinstance(x.func, ast.Attribute)
+                and x.func.attr == "pop" and _is_self_attr(x.func.value, "_pending_tasks")]
+        return bool(pops) and len(guarded) == len(pops)          # every untracking is behind the identity check
+
+    facts["doneCallbackUntracksOnlyItself"] = len(cbs) == 1 and _untracks_only_itself(cbs[0])
     facts["periodicRunnerGetsStopCheck"] = any(
         isinstance(n, ast.Call) and isinstance(n.func, ast.Name) and n.func.id == "interval_runner"
         and any(k.arg == "stop" and "_shutdown" in _src(k.value) for k in n.keywords) for n in _walk_inlined(reg))
